@@ -11,6 +11,7 @@ import (
 	"io"
 
 	"github.com/go-git/go-git/v6/plumbing"
+	plumbhash "github.com/go-git/go-git/v6/plumbing/hash"
 	"github.com/go-git/go-git/v6/utils/binary"
 )
 
@@ -135,7 +136,9 @@ func readHashFunction(d *decoder) (stateFn, error) {
 		return nil, fmt.Errorf("%w: %v not registered", ErrUnsupportedHashFunction, d.hasher)
 	}
 
-	d.hash = d.hasher.New()
+	// go-git's own registry: its SHA1 default is the collision detecting
+	// sha1cd, which Go's crypto registry does not know about.
+	d.hash = plumbhash.New(d.hasher)
 	err = binary.Write(d.hash, revHeader, d.version, hf)
 	if err != nil {
 		return nil, fmt.Errorf("failed to hash rev header: %w", err)
